@@ -425,6 +425,8 @@ inductive POp where
   | openp (mask : Nat)    -- open(..., streams)
   | openFailed (mask : Nat) -- open(..., streams) while pipe() or vfork() fails
   | join
+  | joinFailed            -- join() while waitpid fails (EINTR): stdin end closed, pid and read ends kept, false
+  | startFailed           -- start(...) while vfork fails: 0, nothing changes
   | kill
   | close (mask : Nat)
   | isRunning
@@ -442,6 +444,8 @@ def Proc.step (s : Proc) : POp → Proc × Bool
     else (⟨true, bit m 1, bit m 2, bit m 4⟩, true)
   | .openFailed _ => (s, false)          -- repaired: the pipes created so far are closed again
   | .join => if !s.running then (s, false) else (Proc.init, true)
+  | .joinFailed => if !s.running then (s, false) else ({ s with inp := false }, false)
+  | .startFailed => (s, false)
   | .kill => if !s.running then (s, false) else (Proc.init, true)
   | .close m =>
     ({ s with inp := s.inp && !bit m 4, out := s.out && !bit m 1, err := s.err && !bit m 2 }, true)
